@@ -17,6 +17,8 @@ use tracing::debug;
 pub struct SystemState {
     pub streams: AHashMap<u32, StreamState>,
     pub users: AHashMap<u32, UserState>,
+    /// ID given to the last user ever created in the journal (replay numbers users sequentially).
+    pub current_user_id: u32,
 }
 
 #[derive(Debug)]
@@ -371,7 +373,11 @@ impl SystemState {
             }
         }
 
-        let state = SystemState { streams, users };
+        let state = SystemState {
+            streams,
+            users,
+            current_user_id,
+        };
         debug!("+++ State +++");
         debug!("{state}");
         debug!("+++ State +++");
